@@ -155,6 +155,15 @@ def triSupportFace2 (a b c dir : V2 K) : List (V2 K) :=
   let st := triFaceStep2 dir 2 (a.sub c) (triFaceStep2 dir 1 (c.sub b) (triFaceStep2 dir 0 (b.sub a) (0, -fmax)))
   if st.1 = 0 then [a, b] else if st.1 = 1 then [b, c] else [c, a]
 
+/-- the part of `contact_manifold_cuboid_triangle` after the reference normal `normal1` (frame of the cuboid) is chosen:
+`normal2 = pos21 * -normal1`, the two support faces, `PolygonalFeature::contacts`, the (possibly exchanged) normals -/
+def cuboidTriangleAssemble2 [HasCopysign K] (pos12 pos21 : Iso2 K) (he1 a b c normal1 : V2 K) (flipped : Bool)
+    (m : Manifold2 K) : Manifold2 K :=
+  let normal2 := pos21.rot normal1.neg
+  match polyContacts2 pos12 pos21 normal1 normal2 (cuboidSupportFace2 he1 normal1) (triSupportFace2 a b c normal2) flipped with
+  | some pts => if flipped then ⟨pts, normal2, normal1⟩ else ⟨pts, normal1, normal2⟩
+  | none => m
+
 /-- `contact_manifold_cuboid_triangle(pos12, pos21, cuboid1, triangle2, None, None, prediction, manifold, flipped)` after a failed
 warm start; `pos12` is the pose of the triangle in the cuboid's frame (the caller already exchanged the poses when `flipped`). -/
 def cuboidTriangleFresh2 [HasCopysign K] (pos12 pos21 : Iso2 K) (he1 a b c : V2 K) (pred : K) (flipped : Bool)
@@ -166,10 +175,7 @@ def cuboidTriangleFresh2 [HasCopysign K] (pos12 pos21 : Iso2 K) (he1 a b c : V2 
   let sep3 : K × V2 K := (-fmax, ⟨1, 0⟩)
   if pred < sep3.1 then m.clear else
   let normal1 := if sep1.1 < sep2.1 ∧ sep3.1 < sep2.1 then pos12.rot sep2.2.neg else if sep1.1 < sep3.1 then sep3.2 else sep1.2
-  let normal2 := pos21.rot normal1.neg
-  match polyContacts2 pos12 pos21 normal1 normal2 (cuboidSupportFace2 he1 normal1) (triSupportFace2 a b c normal2) flipped with
-  | some pts => if flipped then ⟨pts, normal2, normal1⟩ else ⟨pts, normal1, normal2⟩
-  | none => m
+  cuboidTriangleAssemble2 pos12 pos21 he1 a b c normal1 flipped m
 
 /-- `contact_manifold_cuboid_triangle_shapes(pos12, shape1, shape2, None, None, prediction, manifold)`:
 `cuboidFirst = true`: shape 1 is the cuboid; else shape 1 is the triangle and the core runs with the poses exchanged, `flipped`. -/
